@@ -19,7 +19,7 @@ import (
 
 func TestMain(m *testing.M) {
 	document.SetGlobalLevel(document.LogLevelSilent)
-	kit.TestMain(m, 1000, 12000)
+	kit.TestMain(m, 700, 8000)
 }
 
 // Case is one history: Ops build a document from scratch (with save/open cycles in between);
@@ -41,7 +41,7 @@ var weights = map[string]int{
 	"footnote": 4, "endnote": 4, "notecfg": 3, "listitem": 4, "bullet": 2, "numbered": 2,
 	"toc": 1, "autotoc": 1, "props": 3, "title": 1, "stats": 1, "pagesize": 1, "margins": 1,
 	"rmelemat": 1, "rmparaat": 1, "customstyle": 1,
-	"save": 4, "reopen": 6, "tpldoc": 4, "tpldoc2": 4, "tplstr": 1, "md": 2,
+	"save": 3, "reopen": 6, "tpldoc": 4, "tpldoc2": 8, "tplstr": 1, "md": 2,
 }
 
 var classes = append(append([]string{}, gen.Expressible...), gen.ClsTemplate)
@@ -94,8 +94,15 @@ func history(t *rapid.T, min, max int) []ops.Op {
 	n := rapid.IntRange(min, max).Draw(t, "nops")
 	out := make([]ops.Op, 0, n+4)
 	for i := 0; i < n; i++ {
-		if rapid.IntRange(0, 7).Draw(t, "edge") == 0 {
+		switch e := rapid.IntRange(0, 15).Draw(t, "edge"); {
+		case e < 2:
 			out = append(out, edgeOp(t))
+			continue
+		case e < 5:
+			out = append(out, widenOp(t))
+			if rapid.IntRange(0, 2).Draw(t, "savenow") == 0 { // the state right after the call is judged, not only a later one
+				out = append(out, ops.Op{K: "save"})
+			}
 			continue
 		}
 		out = append(out, fix(t, cfg.Op(t)))
@@ -106,7 +113,11 @@ func history(t *rapid.T, min, max int) []ops.Op {
 // scenario: short sequences in which several calls have to cooperate
 func scenario(t *rapid.T) []ops.Op {
 	var out []ops.Op
-	switch rapid.IntRange(0, 14).Draw(t, "scn") {
+	scn := rapid.IntRange(0, 14+nWidenScenarios).Draw(t, "scn")
+	if scn > 14 {
+		return widenScenario(t, scn-15)
+	}
+	switch scn {
 	case 11: // a rejected / edge image call between valid ones, saved, cycled and extended
 		out = append(out, cfg.OpOf(t, "image"), cfg.C02Op(t, rapid.SampledFrom([]string{"ximage", "ximage", "ximagefile"}).Draw(t, "xk")), cfg.OpOf(t, "image"),
 			cfg.OpOf(t, "reopen"), cfg.OpOf(t, "image"))
@@ -187,11 +198,11 @@ func twoRenders(t *rapid.T, addPlaceholder bool) ops.Op {
 	return o
 }
 
-var drawnIDs = []string{"R1a2b", "id5", "_x", "rId007", "docRId12", "rId3a", "Rc9e8f7", "rId10", "rId100", "RID3", "rid4", "Rel.1", "r-2", "图1", "rId2", "rId3", "rId6", "rId8"}
+var drawnIDs = []string{"rId9", "rId10", "rId11", "rId99", "rId01", "rId010", "rID2", "rId4294967298", "_", "rId-1", "rId.5", "ｒId2", "R1a2b", "id5", "_x", "rId007", "docRId12", "rId3a", "Rc9e8f7", "rId10", "rId100", "RID3", "rid4", "Rel.1", "r-2", "图1", "rId2", "rId3", "rId6", "rId8"}
 
 func genForeign(t *rapid.T) *Foreign {
 	f := &Foreign{
-		Scheme: rapid.SampledFrom([]string{"hole", "shift", "drawn", "mixed", "sparse", "hole", "shift", "drawn", "keep", "reverse"}).Draw(t, "scheme"),
+		Scheme: rapid.SampledFrom([]string{"hole", "shift", "drawn", "mixed", "sparse", "hole", "shift", "drawn", "keep", "reverse", "straddle", "big", "huge", "prefixes", "case"}).Draw(t, "scheme"),
 		Off:    rapid.IntRange(0, 9).Draw(t, "off"),
 		Stride: rapid.IntRange(2, 5).Draw(t, "stride"),
 		Styles: rapid.SampledFrom([]string{"rId1", "rId1", "fixed", "fixed", "last", "absent"}).Draw(t, "styles"),
@@ -214,6 +225,7 @@ func genForeign(t *rapid.T) *Foreign {
 			f.Extras = append(f.Extras, e)
 		}
 	}
+	widenForeign(t, f)
 	return f
 }
 
@@ -221,7 +233,7 @@ func genCase(t *rapid.T) Case {
 	var c Case
 	foreign := rapid.IntRange(0, 9).Draw(t, "mode") < 6
 	if foreign {
-		c.Ops = history(t, 0, kit.Scale(8, 16))
+		c.Ops = history(t, 0, kit.Scale(6, 16))
 		// a foreign package is interesting when it has some relationships to begin with
 		for i, n := 0, rapid.IntRange(1, 4).Draw(t, "nrel"); i < n; i++ {
 			c.Ops = append(c.Ops, fix(t, cfg.OpOf(t, rapid.SampledFrom(relKinds).Draw(t, "relk"))))
@@ -233,7 +245,7 @@ func genCase(t *rapid.T) Case {
 			c.Ops = append(c.Ops, scenario(t)...)
 		}
 		c.Foreign = genForeign(t)
-		c.Post = history(t, 0, kit.Scale(8, 16))
+		c.Post = history(t, 0, kit.Scale(6, 16))
 		for i, n := 0, rapid.IntRange(0, 3).Draw(t, "npost"); i < n; i++ {
 			c.Post = append(c.Post, fix(t, cfg.OpOf(t, rapid.SampledFrom(relKinds).Draw(t, "relk"))))
 		}
@@ -245,7 +257,7 @@ func genCase(t *rapid.T) Case {
 		}
 		return c
 	}
-	c.Ops = history(t, 1, kit.Scale(16, 36))
+	c.Ops = history(t, 1, kit.Scale(12, 36))
 	for i, n := 0, rapid.IntRange(0, 2).Draw(t, "nscn"); i < n; i++ {
 		c.Ops = append(c.Ops, scenario(t)...)
 		c.Ops = append(c.Ops, history(t, 0, 4)...)
@@ -266,6 +278,8 @@ type runner struct {
 	grew     bool
 	saves    int
 	dead     bool
+	w        *ops.C02W                              // widening ops (state that outlives one op)
+	baseOf   map[*document.Document]*opc.Package // the opened package each document object descends from (wswap)
 }
 
 // where names the save being judged; a document that descends from an opened foreign package (the
@@ -369,7 +383,7 @@ func (r *runner) runOps(list []ops.Op, phase string) {
 		}
 		at := fmt.Sprintf("%s op %d", phase, i)
 		switch op.K {
-		case "reopen", "tpldoc", "tpldoc2", "tplstr", "md", "xtplfail":
+		case "reopen", "tpldoc", "tpldoc2", "tplstr", "md", "xtplfail", "wtplimgs", "wtplstrimg", "wtplagain":
 			// last look at the document object that is about to be replaced
 			r.saveNow(at + " (before " + op.K + ")")
 			if r.dead {
@@ -382,14 +396,22 @@ func (r *runner) runOps(list []ops.Op, phase string) {
 		docBefore := r.x.Doc
 		var err error
 		edge := ops.IsC02(op.K)
+		wid := ops.IsC02W(op.K)
 		name := op.K
 		if edge {
 			name = op.K + "/" + ops.C02Variant(op)
 		}
+		if wid {
+			name = op.K + "/" + ops.C02WVariant(op)
+		}
+		r.baseOf[docBefore] = r.base
 		if p, _ := kit.Try(func() {
-			if edge {
+			switch {
+			case edge:
 				err = r.x.DoC02(op)
-			} else {
+			case wid:
+				err = r.w.Do(op)
+			default:
 				err = r.x.Do(op)
 			}
 		}); p != nil {
@@ -433,6 +455,9 @@ func (r *runner) runOps(list []ops.Op, phase string) {
 			if r.dead {
 				return
 			}
+		}
+		if wid {
+			r.afterWiden(op, err, docBefore)
 		}
 		if err == nil {
 			switch op.K {
@@ -478,7 +503,8 @@ func run(c Case) *kit.Result {
 	document.VerifResetGlobals()
 	dir, _ := os.MkdirTemp(kit.Scratch, "c02-")
 	defer os.RemoveAll(dir)
-	r := &runner{res: res, x: ops.NewExec(dir)}
+	r := &runner{res: res, x: ops.NewExec(dir), baseOf: map[*document.Document]*opc.Package{}}
+	r.w = ops.NewC02W(r.x)
 	r.runOps(c.Ops, "build")
 	var b []byte
 	if !r.dead {
@@ -495,7 +521,13 @@ func run(c Case) *kit.Result {
 		} else if fp, ok := selfCheck(res, fb); ok {
 			var nd *document.Document
 			var oerr error
-			if p, _ := kit.Try(func() { nd, oerr = document.OpenFromMemory(io.NopCloser(bytes.NewReader(fb))) }); p != nil || oerr != nil || nd == nil || nd.Body == nil {
+			if p, _ := kit.Try(func() {
+				if fpath := foreignFile(c.Foreign, dir, fb); fpath != "" {
+					nd, oerr = document.Open(fpath)
+				} else {
+					nd, oerr = document.OpenFromMemory(io.NopCloser(bytes.NewReader(fb)))
+				}
+			}); p != nil || oerr != nil || nd == nil || nd.Body == nil {
 				res.Label("foreign:open-failed") // C04/C06 judge opening
 				res.Count("foreign-open-failed", 1)
 			} else {
@@ -541,8 +573,10 @@ func run(c Case) *kit.Result {
 				if info.RepairedRoot > 0 {
 					res.Label("foreign:notes-in-base")
 				}
+				widenForeignLabels(res, c.Foreign, info)
 				r.shape = append(r.shape, fmt.Sprintf("F[%s %s n=%d hole=%v coll=%v nonrid=%v hl=%v hdr=%v ex=%d root=%d]", c.Foreign.Scheme, info.StylesID, info.N, info.HoleAtNext, info.CollideFirst, info.NonRid,
 					c.Foreign.Hyperlink, info.HdrRelsPart != "", len(c.Foreign.Extras), c.Foreign.Root))
+				r.shape = append(r.shape, widenShape(c.Foreign, info))
 				r.saveNow("open→save")
 				r.runOps(c.Post, "post")
 				if !r.dead {
@@ -594,7 +628,7 @@ func selfCheck(res *kit.Result, fb []byte) (*opc.Package, bool) {
 func TestC02(t *testing.T) {
 	kit.Main(t, kit.Spec[Case]{
 		ID: "C02", Level: "exploration",
-		Rule: "history of generated API calls weighted to relationship-creating calls (images in body and table cells, template image placeholders, headers/footers, lists, notes, note settings, properties) with save / reopen / template-render cycles in between; in half of the cases the saved package is rewritten by independent code into a foreign package (arbitrary, non-contiguous, non-rId relationship ids with a hole at count+2 or count+2 taken, styles relationship not rId1 / last / absent, external hyperlink, extra parts, header with its own relationship part, root with property relationships), opened and extended by a second history; one op in eight is a call with EDGE ARGUMENTS that the API rejects or may reject (nil / empty / undecodable / truncated image data, unknown or wrong declared format, missing / empty / non-image file or a directory, cell position outside the table, nil table, header/footer type strings outside default/first/even, nil configurations, list kinds and levels outside the defined ones, removal of unknown notes, template renders that fail half-way and are optionally repeated with repaired data, nil document properties, Save to a path that cannot be created), labelled by kind and counted by whether it really returned an error; the current document is saved and judged right after EVERY call that returned an error; every package saved on the way is judged, and the documents that were replaced as the current one (template bases, first of two renders, documents before a reopen) are saved and judged at the end of the phase. non-trivial = some judged package has >=3 relationships besides styles, or the document was opened with non-dense ids and a later save has more relationships than the opened package; distinct = distinct sequence of (op kind, outcome) plus the facts of the foreign rewrite",
+		Rule: "history of generated API calls weighted to relationship-creating calls (images in body and table cells, template image placeholders, headers/footers, lists, notes, note settings, properties) with save / reopen / template-render cycles in between; in half of the cases the saved package is rewritten by independent code into a foreign package (arbitrary, non-contiguous, non-rId relationship ids with a hole at count+2 or count+2 taken, styles relationship not rId1 / last / absent, external hyperlink, extra parts, header with its own relationship part, root with property relationships), opened and extended by a second history; one op in eight is a call with EDGE ARGUMENTS that the API rejects or may reject (nil / empty / undecodable / truncated image data, unknown or wrong declared format, missing / empty / non-image file or a directory, cell position outside the table, nil table, header/footer type strings outside default/first/even, nil configurations, list kinds and levels outside the defined ones, removal of unknown notes, template renders that fail half-way and are optionally repeated with repaired data, nil document properties, Save to a path that cannot be created), labelled by kind and counted by whether it really returned an error; about one op in five is a WIDENING call (valid calls through entry points the base interpreter does not reach: Document.Save to a file path read back and judged, Save+Open of a path, AddCellImageFromFile / AddCellImage with FilePath, Data+Format, AltText+Title+Height, several distinct image placeholders - names that are prefixes of one another or differ in case, in own paragraphs, in one paragraph, in table cells - rendered with pictures given as data / file path / SetImageWithDetails / floating configuration through TemplateEngine or TemplateRenderer.LoadTemplateFromFile, string templates with image placeholders, bursts of 2-13 and rarely 33 or 65 pictures in body and cells, the most recent side document swapped in as the current one so that two live documents are extended alternately (also with one and the same picture), a template engine that is kept and rendered from again after its base document changed, AddFootnoteToRun, removal of existing notes down to none, every enumerated footnote configuration, CreateMultiLevelList / RestartNumbering / deep lists, the single property setters, the image modifiers, all six header/footer definitions through mixed entry points twice), a third of them followed by a save; the foreign rewrite additionally produces ids that straddle the one/two-digit and two/three-digit boundary, exceed 32 and 64 bits, are prefixes of one another or differ in case only, 3-12 and rarely 31/63/97 more external hyperlink relationships, absolute targets, TargetMode=Internal written out, relationship parts with a namespace prefix, a first section (paragraph-level sectPr) that refers to a header only it uses, a notes part with its own relationship part, zip directory entries, and is opened from a file a third of the time; the current document is saved and judged right after EVERY call that returned an error; every package saved on the way is judged, and the documents that were replaced as the current one (template bases, first of two renders, documents before a reopen) are saved and judged at the end of the phase. non-trivial = some judged package has >=3 relationships besides styles, or the document was opened with non-dense ids and a later save has more relationships than the opened package; distinct = distinct sequence of (op kind, outcome) plus the facts of the foreign rewrite",
 		Gen:  genCase, Run: run, Findings: findings, Fixed: fixedCases,
 		Assumptions: []string{
 			"relationship parts, targets and sources are read by the harness's own OPC reader; references are the attributes in the officeDocument relationships namespace found by an encoding/xml token scan of the main document and of the header/footer/notes parts it names",
@@ -605,6 +639,11 @@ func TestC02(t *testing.T) {
 		MustSee: map[string]float64{"foreign:hole-at-len+2": 0.03, "foreign:len+2-taken": 0.05, "foreign:styles-not-rId1": 0.1, "image-in-table-cell": 0.15, "notes/settings-added": 0.3,
 			"opened-nondense-then-extended": 0.1, "tpl-image-placeholder": 0.03, "two-renders-shared-templatedata": 0.05, "side-document-judged": 0.3, "reopen": 0.3, "foreign:non-rId-ids": 0.05, "foreign:external-hyperlink": 0.05,
 			"edge-call:returned-error": 0.25, "edge-call:accepted": 0.25, "saved-right-after-rejected-call": 0.3, "edge:ximage": 0.15, "edge:xcellimg": 0.08, "edge:xtplfail": 0.08,
-			"rejected:ximagefile": 0.05, "edge:xhf": 0.05},
+			"rejected:ximagefile": 0.05, "edge:xhf": 0.05,
+			// widening
+			"saved-to-path": 0.2, "reopened-from-path": 0.05, "two-documents-alternately": 0.03, "tpl-several-placeholders": 0.05, "tpl-through-TemplateRenderer-file": 0.02, "tpl-string-template-with-image": 0.02,
+			"kept-engine-rendered-later": 0.005, "count>=9": 0.03, "cell-image:from-file": 0.01, "cell-image:config-filepath": 0.01, "header/footer-defined-twice": 0.02, "note:footnote-to-run": 0.005,
+			"foreign:rels>=9": 0.1, "foreign:ids-straddle-digit-boundary": 0.05, "foreign:absolute-targets": 0.05, "foreign:prefixed-rels-part": 0.04, "foreign:explicit-TargetMode-Internal": 0.04,
+			"foreign:first-section-with-references": 0.04, "foreign:notes-own-rels": 0.01, "foreign:opened-from-file": 0.1, "foreign:zip-directory-entries": 0.02},
 	})
 }
